@@ -91,8 +91,26 @@ Definition prop_final (ops : list (wop proposal)) : proposal -> option (option w
   final_last (eqb_of prop_rust_ltb) wop_key wop_wit prop_accept ops.
 
 (* projections of a mixed call sequence *)
-Definition ops_in (ops : list op) : list in_op := flat_map (fun o => match o with OpIn i => [i] | _ => [] end) ops.
-Definition ops_col (ops : list op) : list in_op := flat_map (fun o => match o with OpCol i => [i] | _ => [] end) ops.
+(* a *_utxo call counts as the registration it amounts to when the entry point accepts the UTxO's address, and as nothing otherwise *)
+Definition utxo_calls (col : bool) (o : op) : list in_op :=
+  match o with
+  | OpInU c e a h x r => if Bool.eqb c col then match utxo_effect e a h x r with Some i => [i] | None => [] end else []
+  | _ => []
+  end.
+Definition ops_in (ops : list op) : list in_op := flat_map (fun o => match o with OpIn i => [i] | _ => utxo_calls false o end) ops.
+Definition ops_col (ops : list op) : list in_op := flat_map (fun o => match o with OpCol i => [i] | _ => utxo_calls true o end) ops.
+(* the ledger's view of the acceptance rule: a UTxO can be spent with a script witness only if its payment credential is a script
+   hash (Base / Enterprise / Pointer address), and with a key / bootstrap witness only if it is a key hash or a Byron address *)
+Definition addr_script_locked (a : addr_kind) : bool :=
+  match a with ABaseScript | AEntScript | APtrScript => true | _ => false end.
+Definition addr_key_locked (a : addr_kind) : bool :=
+  match a with ABaseKey | AEntKey | APtrKey | AByron => true | _ => false end.
+Definition ledger_utxo_effect (e : utxo_entry) (a : addr_kind) (h : bytes) (o : outpoint) (rid : N) : option in_op :=
+  match e with
+  | URegular => if addr_key_locked a then Some (InKey o) else None
+  | UNative => if addr_script_locked a then Some (InNative h o) else None
+  | UPlutus => if addr_script_locked a then Some (InPlutus h o rid) else None
+  end.
 Definition ops_mint (ops : list op) : list mint_op := flat_map (fun o => match o with OpMint i => [i] | _ => [] end) ops.
 Definition ops_cert (ops : list op) : list (wop cert) := flat_map (fun o => match o with OpCert i => [i] | _ => [] end) ops.
 Definition ops_wd (ops : list op) : list (wop racct) := flat_map (fun o => match o with OpWd i => [i] | _ => [] end) ops.
